@@ -151,6 +151,11 @@ func poolScenarioP(cfg scenlib.PoolCfg, subs [][]jobSpec, closeAtEnd bool, preal
 				case strings.HasPrefix(res, "other:"), res == "queue-closed" && !closeAtEnd:
 					fs = append(fs, e1.Fail("C09|"+fam+"|error-code", "job %d: Schedule returned %s", j.id, res))
 				}
+				if j.spec.kind == "panic-nilptr" {
+					if n := e1.Count(r, "panic-handler", "<nil>"); n != runs {
+						fs = append(fs, e1.Fail("C09|"+fam+"|panic-handler-count", "job %d, which panics with a typed nil pointer, ran %d time(s) but the panic handler was called %d time(s)", j.id, runs, n))
+					}
+				}
 				if j.spec.kind == "panic" || j.spec.kind == "timed-panic" {
 					want := fmt.Sprintf("boom-%d", j.id)
 					if n := e1.Count(r, "panic-handler", want); n != runs {
@@ -159,7 +164,7 @@ func poolScenarioP(cfg scenlib.PoolCfg, subs [][]jobSpec, closeAtEnd bool, preal
 				}
 			}
 			for _, e := range r.Events {
-				if e.Kind == "panic-handler" && !strings.HasPrefix(e.Args[0].(string), "boom-") {
+				if e.Kind == "panic-handler" && !strings.HasPrefix(e.Args[0].(string), "boom-") && e.Args[0].(string) != "<nil>" {
 					fs = append(fs, e1.Fail("C09|"+fam+"|panic-handler-foreign", "panic handler invoked for something that is not a job's panic: %v", e.Args[0]))
 				}
 			}
@@ -221,6 +226,8 @@ func scenarios(tier string) []*vsched.Scenario {
 			poolScenario(cfgs[1], [][]jobSpec{{js("timed", S), js("timed-panic", S), js("plain", T)}}, false, 1, false),
 			poolScenario(cfgs[3], [][]jobSpec{{js("timed-panic", S), js("timed", S), js("plain", S)}}, false, 2, true),
 			poolScenarioP(scenlib.PoolCfg{Cap: 2, Buf: 0, Max: 1, StandBy: 0, Batch: 1}, [][]jobSpec{{js("timed", S), js("timed", S)}}, false, 1, 1, false))
+		// a job that panics with a typed nil pointer is a panicking job like any other
+		out = append(out, poolScenario(scenlib.PoolCfg{Cap: 1, Buf: 1, Max: 1, StandBy: 1, Batch: 1}, [][]jobSpec{{js("panic-nilptr", S), js("plain", S)}}, false, 1, false))
 		// an on-demand pool (stand-by 0) whose batch size is "everything in one worker": the largest int and its neighbour
 		for _, batch := range []int{math.MaxInt, math.MaxInt - 1} {
 			out = append(out, poolScenario(scenlib.PoolCfg{Cap: 1, Buf: 2, Max: 1, StandBy: 0, Batch: batch}, scripts[3], false, 1, false))
